@@ -19,7 +19,7 @@
 (* a shrink is pending), UseResult = FALSE (the result of an in-transaction Shrink     *)
 (* that stopped at the transaction boundary ignored).                                  *)
 EXTENDS Integers, FiniteSets, TLC
-CONSTANTS MaxB, K, Budget, KeepSsz, UseResult
+CONSTANTS MaxB, K, Budget, KeepSsz, UseResult, MaxOps    \* MaxOps = 0: no bound on the number of operations (the whole reachable space)
 (* K: what Resize estimates to fit in its transaction (shrinkFits(oldsz-newSz)); Budget <= K: what one transaction   *)
 (* really frees (every freed block also dirties bitmap and index blocks, and Shrink re-checks the room per block).   *)
 
@@ -48,27 +48,27 @@ Resize(n) ==
 
 (* getShrink: WRITE / SETATTR complete a pending shrink in transactions of their own first *)
 Help ==
-  /\ kind = "file" /\ Pending /\ nops < 8
+  /\ kind = "file" /\ Pending /\ (MaxOps = 0 \/ nops < MaxOps)
   /\ LET r == DoShrink(sz, ssz, map, Budget) IN ssz' = r[1] /\ map' = r[2]
-  /\ crashed' = (crashed /\ ssz' > sz) /\ nops' = nops + 1
+  /\ crashed' = (crashed /\ ssz' > sz) /\ nops' = (IF MaxOps = 0 THEN nops ELSE nops + 1)
   /\ UNCHANGED <<kind, sz, shq>>
 Write(i) ==
-  /\ kind = "file" /\ ~Pending /\ nops < 8
-  /\ map' = map \cup {i} /\ sz' = Max(sz, i + 1) /\ nops' = nops + 1
+  /\ kind = "file" /\ ~Pending /\ (MaxOps = 0 \/ nops < MaxOps)
+  /\ map' = map \cup {i} /\ sz' = Max(sz, i + 1) /\ nops' = (IF MaxOps = 0 THEN nops ELSE nops + 1)
   /\ UNCHANGED <<kind, ssz, shq, crashed>>
 Setattr(n) ==
-  /\ kind = "file" /\ ~Pending /\ n # sz /\ nops < 8
+  /\ kind = "file" /\ ~Pending /\ n # sz /\ (MaxOps = 0 \/ nops < MaxOps)
   /\ LET r == Resize(n) IN sz' = r[1] /\ ssz' = r[2] /\ map' = r[3] /\ shq' = (shq \/ r[4])
-  /\ nops' = nops + 1 /\ UNCHANGED <<kind, crashed>>
+  /\ nops' = (IF MaxOps = 0 THEN nops ELSE nops + 1) /\ UNCHANGED <<kind, crashed>>
 Remove ==      \* doDecLink: Resize(0) and free the inode, whatever state it is in
-  /\ kind = "file" /\ nops < 8
+  /\ kind = "file" /\ (MaxOps = 0 \/ nops < MaxOps)
   /\ LET r == Resize(0) IN sz' = r[1] /\ ssz' = r[2] /\ map' = r[3] /\ shq' = (shq \/ r[4])
-  /\ kind' = "free" /\ nops' = nops + 1 /\ UNCHANGED crashed
+  /\ kind' = "free" /\ nops' = (IF MaxOps = 0 THEN nops ELSE nops + 1) /\ UNCHANGED crashed
 Alloc ==       \* getAlloc: a half-freed number is first shrunk completely (DoShrink), then initialised
-  /\ kind = "free" /\ nops < 8
+  /\ kind = "free" /\ (MaxOps = 0 \/ nops < MaxOps)
   /\ IF Pending THEN LET r == DoShrink(sz, ssz, map, Budget) IN ssz' = r[1] /\ map' = r[2] /\ UNCHANGED <<kind, sz>>
      ELSE kind' = "file" /\ sz' = 0 /\ ssz' = 0 /\ UNCHANGED map
-  /\ crashed' = (crashed /\ ssz' > sz') /\ nops' = nops + 1 /\ UNCHANGED shq
+  /\ crashed' = (crashed /\ ssz' > sz') /\ nops' = (IF MaxOps = 0 THEN nops ELSE nops + 1) /\ UNCHANGED shq
 Shrinker ==    \* one transaction of the background thread
   /\ shq
   /\ LET r == DoShrink(sz, ssz, map, Budget) IN ssz' = r[1] /\ map' = r[2] /\ shq' = (r[1] > sz)
